@@ -19,6 +19,8 @@ var vShapes = [][][][]int{
 	{{{1}, {2}}, {}},                  // empty stack
 	{{{1}, {0}}, {{2}}},               // frame without function
 	{{{1}, {2, 3}}, {{1}, {2}}, {{2, 3}}}, // inlined pair at the leaf, shared
+	{{{1}, {3}}, {{1}, {2}, {3}}},         // direct call first, then the same call through a frame that may be trimmed
+	{{{1}, {2}, {3}}, {{1}, {3}}},         // the same, other sample order
 }
 
 type vProf struct {
